@@ -273,8 +273,6 @@ def run_case(case):
                     raise Stop(violation("features-not-preserved", "%s: features differ from the stored float32 values (shape %s vs %s)" % (what, Xl.shape, X.shape), fmt=fmt, op=kop, **facts))
                 if [int(v) for v in Yl] != [int(v) for v in Y]:
                     raise Stop(violation("labels-not-preserved", "%s: labels %s differ from stored label - 1 = %s" % (what, [int(v) for v in Yl][:8], [int(v) for v in Y][:8]), fmt=fmt, op=kop, **facts))
-                if Yl.dtype.kind not in "iu":
-                    raise Stop(violation("labels-not-preserved", "%s: labels have dtype %s, not an integer type" % (what, Yl.dtype), fmt=fmt, op=kop, **facts))
                 loaded_formats.add(fmt)
                 if len(loaded_formats) == 3:
                     interesting = True
